@@ -55,6 +55,13 @@ type HSConfig struct {
 	// server->client) and read fragmentation.
 	HookC2S, HookS2C   func(idx int, p []byte) [][]byte
 	ReadMaxC, ReadMaxS func() int
+	// StaleRemoteC / StaleRemoteS (passphrase pattern only): that party's
+	// ConnData already holds a remote static key while its Machine is built
+	// for the passphrase pattern - the state of a party whose ConnData was
+	// paired by another handshake between its pattern lookup and the
+	// construction of the Machine. The passphrase pattern must behave as
+	// always: both fields of BrontideMachineConfig are inputs.
+	StaleRemoteC, StaleRemoteS *btcec.PublicKey
 	// EphSeed, if non-zero, makes both machines draw their ephemeral keys
 	// from a PRNG seeded with it, so that a session can be reproduced
 	// bit for bit.
@@ -96,9 +103,23 @@ func RunHandshake(cfg HSConfig) *HSResult {
 	if cfg.KeyCOverride != nil {
 		ckey = cfg.KeyCOverride
 	}
+	patC, patS := mailbox.HandshakePattern{}, mailbox.HandshakePattern{}
+	forceC, forceS := false, false
+	if !cfg.KK && cfg.StaleRemoteC != nil {
+		remC, patC, forceC = cfg.StaleRemoteC, mailbox.XXPattern, true
+	}
+	if !cfg.KK && cfg.StaleRemoteS != nil {
+		remS, patS, forceS = cfg.StaleRemoteS, mailbox.XXPattern, true
+	}
 	c := newSide(ckey, remC, cfg.PassC, nil)
 	s := newSide(cfg.KeyS, remS, cfg.PassS, cfg.Auth)
 	res := &HSResult{C: c, S: s}
+	if !forceC {
+		patC = c.CD.HandshakePattern()
+	}
+	if !forceS {
+		patS = s.CD.HandshakePattern()
+	}
 
 	var ephC, ephS func() (*btcec.PrivateKey, error)
 	if cfg.EphSeed != 0 {
@@ -108,11 +129,11 @@ func RunHandshake(cfg HSConfig) *HSResult {
 		ephS = func() (*btcec.PrivateKey, error) { return NewKey(rs).PrivKey, nil }
 	}
 	c.M, c.NewErr = mailbox.NewBrontideMachine(&mailbox.BrontideMachineConfig{
-		Initiator: true, HandshakePattern: c.CD.HandshakePattern(), ConnData: c.CD,
+		Initiator: true, HandshakePattern: patC, ConnData: c.CD,
 		MinHandshakeVersion: cfg.CMin, MaxHandshakeVersion: cfg.CMax, EphemeralGen: ephC,
 	})
 	s.M, s.NewErr = mailbox.NewBrontideMachine(&mailbox.BrontideMachineConfig{
-		Initiator: false, HandshakePattern: s.CD.HandshakePattern(), ConnData: s.CD,
+		Initiator: false, HandshakePattern: patS, ConnData: s.CD,
 		MinHandshakeVersion: cfg.SMin, MaxHandshakeVersion: cfg.SMax, EphemeralGen: ephS,
 	})
 	if c.NewErr != nil || s.NewErr != nil {
